@@ -137,12 +137,15 @@ type c12Item struct {
 }
 
 type c12Decl struct {
-	// Kind: type | typegroup | struct | const | constgroup | var | vargroup
+	// Kind: type | typegroup | struct | const | constgroup | var | vargroup | func (a function whose closing brace carries a comment)
 	Kind  string    `json:"kind"`
 	Item  c12Item   `json:"item"`            // the declaration itself (for groups: the comment above the group keyword)
 	Items []c12Item `json:"items,omitempty"` // group members / struct fields
 	// Tight: no blank line between this declaration and the previous one
 	Tight bool `json:"tight,omitempty"`
+	// OpenCmt: a comment behind the opening brace / parenthesis (struct {, type (, const (, var () or, for func, behind the closing
+	// brace: it belongs to no declaration and must not become the documentation of what follows
+	OpenCmt string `json:"opencmt,omitempty"`
 }
 
 type c12Layout struct {
@@ -203,7 +206,9 @@ func genC12Layout(t *rapid.T) c12Layout {
 			}
 			return items
 		}
-		switch rapid.IntRange(0, 6).Draw(t, "kind") {
+		switch rapid.IntRange(0, 7).Draw(t, "kind") {
+		case 7:
+			d = c12Decl{Kind: "func", Item: c12Item{Names: []string{name("fn")}}, OpenCmt: rapid.SampledFrom([]string{"closing", "+gengo:enum", "end of fn"}).Draw(t, "closecmt")}
 		case 0:
 			d = c12Decl{Kind: "type", Item: genC12Item(t, []string{name("T")}, true)}
 		case 1:
@@ -218,6 +223,9 @@ func genC12Layout(t *rapid.T) c12Layout {
 			d = c12Decl{Kind: "var", Item: genC12Item(t, []string{name("V")}, true)}
 		default:
 			d = c12Decl{Kind: "vargroup", Item: genC12Item(t, nil, false), Items: members("W", true, 1)}
+		}
+		if (d.Kind == "struct" && len(d.Items) > 0 || strings.HasSuffix(d.Kind, "group")) && rapid.IntRange(0, 3).Draw(t, "opencmt") == 0 {
+			d.OpenCmt = rapid.SampledFrom([]string{"opener", "+gengo:enum", "keep in sync with the table", "@tag t"}).Draw(t, "opencmttext")
 		}
 		d.Tight = i > 0 && rapid.IntRange(0, 2).Draw(t, "tight") == 0
 		if d.Kind == "type" || d.Kind == "var" {
@@ -262,7 +270,13 @@ func (l c12Layout) source() string {
 			b.WriteString("\n")
 		}
 		d.Item.lead(b, "")
+		open := ""
+		if d.OpenCmt != "" {
+			open = " // " + d.OpenCmt
+		}
 		switch d.Kind {
+		case "func":
+			fmt.Fprintf(b, "func %s() {\n}%s\n", d.Item.Names[0], open)
 		case "type":
 			if d.Item.Multi {
 				fmt.Fprintf(b, "type %s struct {\n\tInner int\n}%s\n", d.Item.Names[0], d.Item.tail())
@@ -282,7 +296,7 @@ func (l c12Layout) source() string {
 				fmt.Fprintf(b, "type %s struct{}\n", d.Item.Names[0])
 				continue
 			}
-			fmt.Fprintf(b, "type %s struct {\n", d.Item.Names[0])
+			fmt.Fprintf(b, "type %s struct {%s\n", d.Item.Names[0], open)
 			for _, it := range d.Items {
 				it.lead(b, "\t")
 				if it.Multi {
@@ -293,7 +307,7 @@ func (l c12Layout) source() string {
 			}
 			b.WriteString("}\n")
 		case "typegroup":
-			b.WriteString("type (\n")
+			b.WriteString("type (" + open + "\n")
 			for _, it := range d.Items {
 				it.lead(b, "\t")
 				if it.Multi {
@@ -304,7 +318,7 @@ func (l c12Layout) source() string {
 			}
 			b.WriteString(")\n")
 		case "constgroup", "vargroup":
-			b.WriteString(strings.TrimSuffix(d.Kind, "group") + " (\n")
+			b.WriteString(strings.TrimSuffix(d.Kind, "group") + " (" + open + "\n")
 			for _, it := range d.Items {
 				it.lead(b, "\t")
 				vals := make([]string, len(it.Names))
@@ -398,9 +412,13 @@ func oracleC12Layout(l c12Layout) error {
 			if err := checkItem(p, d.Kind+" "+d.Item.Names[0], lookup(d.Item.Names[0]).Pos(), d.Item); err != nil {
 				return fmt.Errorf("%w\n--- source ---\n%s", err, l.source())
 			}
+		case "func":
+			// nothing is asserted about the function itself
 		case "struct":
 			o := lookup(d.Item.Names[0])
-			if err := checkItem(p, "type "+d.Item.Names[0], o.Pos(), d.Item); err != nil {
+			self := d.Item
+			self.Multi = self.Multi || d.OpenCmt != "" // whether the comment behind "struct {" is the declaration's trailing comment is not asserted
+			if err := checkItem(p, "type "+d.Item.Names[0], o.Pos(), self); err != nil {
 				return fmt.Errorf("%w\n--- source ---\n%s", err, l.source())
 			}
 			st := o.Type().Underlying().(*types.Struct)
@@ -456,6 +474,9 @@ func c12Features(l c12Layout) []string {
 		prevTrailing = it.Trailing != ""
 	}
 	for _, d := range l.Decls {
+		if d.OpenCmt != "" {
+			fs["comment-behind-opener-or-function-end"] = true
+		}
 		if d.Item.Names != nil || len(d.Item.Doc) > 0 || len(d.Item.Detached) > 0 {
 			visit(d.Item, false)
 		}
